@@ -55,6 +55,30 @@ impl RawSock {
 #[verifier::external_body] pub fn random_u64() -> u64 { unimplemented!() }
 #[verifier::external_body] pub fn conn_io_new(socket: SockArc, binder: &BinderArc, remote: std::net::SocketAddr) -> ConnIo { unimplemented!() }
 
+
+// ---------- sync_readers (src/sender/uplink.rs): reader tasks follow the link list ----------
+#[verifier::external_body] pub struct ReaderHandle { _p: () }
+#[verifier::external_body] pub struct PacketTx { _p: () }
+#[verifier::external_body] pub fn spawn_reader(id: u64, label: String, socket: SockArc, tx: PacketTx) -> ReaderHandle { unimplemented!() }
+#[verifier::external_body] pub fn io_socket_clone(io: &ConnIo) -> SockArc { unimplemented!() }
+#[verifier::external_body] pub fn tx_clone(tx: &PacketTx) -> PacketTx { unimplemented!() }
+#[verifier::external_body] pub fn reader_abort(r: &mut ReaderHandle) { }
+// HashSet<u64>
+#[verifier::external_body] pub struct IdSet { _p: () }
+impl IdSet {
+    pub uninterp spec fn view(&self) -> Set<u64>;
+    #[verifier::external_body] pub fn new() -> (r: IdSet) ensures r@ == Set::<u64>::empty() { unimplemented!() }
+    #[verifier::external_body] pub fn insert(&mut self, k: u64) -> (r: bool) ensures final(self)@ == old(self)@.insert(k) { unimplemented!() }
+    #[verifier::external_body] pub fn contains(&self, k: &u64) -> (r: bool) ensures r == self@.contains(*k) { unimplemented!() }
+}
+// HashMap::retain support (rule R19e): the keys, each once; mutable access to one value (domain unchanged)
+#[verifier::external_body] pub fn hashmap_keys_u64(m: &HashMap<u64, ReaderHandle>) -> (r: Vec<u64>)
+    ensures forall|k: u64| r@.contains(k) == #[trigger] m@.contains_key(k), forall|a: int, b: int| 0 <= a < b < r.len() ==> r[a] != r[b],
+{ m.keys().copied().collect() }
+#[verifier::external_body] pub fn hashmap_get_mut_u64<'a>(m: &'a mut HashMap<u64, ReaderHandle>, k: u64) -> (r: Option<&'a mut ReaderHandle>)
+    ensures (r is Some) == old(m)@.contains_key(k), final(m)@.dom() == old(m)@.dom(),
+{ m.get_mut(&k) }
+pub open spec fn has_conn_id(s: Seq<SrtlaConnection>, n: int, id: u64) -> bool { exists|j: int| 0 <= j < n && j < s.len() && (#[trigger] s[j]).conn_id == id }
 // ---------- C19 spec ----------
 pub open spec fn desired(host: Seq<char>, port: u16, ips: Seq<IpAddr>, label: Seq<char>) -> bool {
     exists|k: int| 0 <= k < ips.len() && spec_label(host, port, #[trigger] ips[k]) == label
@@ -394,6 +418,59 @@ def build():
             }
         }""")},
                splices=[('@BEGIN', '    let ghost mut idx_g: Seq<int> = Seq::empty();', 'after')]))
+
+    UP = 'src/sender/uplink.rs'
+    u.add(u.fn(UP, 'sync_readers', sub='conns',
+               pre_rewrite=[('let mut active_ids = HashSet::with_capacity(connections.len());', 'let mut active_ids = IdSet::new();', 1),
+                            (lambda t: rules.r19_entry_or_insert_with(t)[0], None, 1), (lambda t: rules.r19_hashmap_retain(t)[0], None, 1),
+                            ('conn.label.clone()', 'string_clone(&conn.label)', 1), ('io.socket.clone()', 'io_socket_clone(io)', 1), ('packet_tx.clone()', 'tx_clone(packet_tx)', 1),
+                            ('reader.handle.abort();', 'reader_abort(reader);', 1)],
+               post_rewrite=[('readers: &mut HashMap<ConnectionId, ReaderHandle>', 'readers: &mut HashMap<u64, ReaderHandle>', 1), ('packet_tx: &UnboundedSender<UplinkPacket>', 'packet_tx: &PacketTx', 1)],
+               ensures=[
+                   C('C19.conns.sync_readers.no_reader_survives_for_a_link_that_is_not_in_the_list',
+                     'forall|k: u64| #[trigger] final(readers)@.contains_key(k) ==> has_conn_id(connections@, connections@.len() as int, k)'),
+                   C('C19.conns.sync_readers.every_link_with_an_io_handle_has_a_reader',
+                     'forall|j: int| 0 <= j < connections.len() && conn_io@.contains_key((#[trigger] connections[j]).conn_id) ==> final(readers)@.contains_key(connections[j].conn_id)'),
+                   C('C19.conns.sync_readers.readers_of_listed_links_are_kept',
+                     'forall|k: u64| old(readers)@.contains_key(k) && has_conn_id(connections@, connections@.len() as int, k) ==> #[trigger] final(readers)@.contains_key(k)'),
+               ],
+               loops={
+                   'active_ids.insert(': dict(inv=['conn_nx <= connections.len()',
+                                                   'forall|k: u64| #[trigger] active_ids@.contains(k) == has_conn_id(connections@, conn_nx as int, k)',
+                                                   'forall|k: u64| old(readers)@.contains_key(k) ==> #[trigger] readers@.contains_key(k)',
+                                                   C('C19.conns.sync_readers.every_link_with_an_io_handle_has_a_reader',
+                                                     'forall|j: int| 0 <= j < conn_nx && conn_io@.contains_key((#[trigger] connections[j]).conn_id) ==> readers@.contains_key(connections[j].conn_id)')],
+                                              dec='connections.len() - conn_nx',
+                                              end="""        proof {
+            assert forall|k: u64| #[trigger] active_ids@.contains(k) == has_conn_id(connections@, conn_nx as int, k) by {
+                if has_conn_id(connections@, conn_nx as int - 1, k) { let j = choose|j: int| 0 <= j < conn_nx - 1 && j < connections@.len() && (#[trigger] connections@[j]).conn_id == k; assert(connections@[j].conn_id == k); }
+                if connections@[conn_nx as int - 1].conn_id == k { assert(has_conn_id(connections@, conn_nx as int, k)); }
+            }
+        }"""),
+                   'readers.remove(': dict(inv=['conn_id_nx <= readers_keys.len()',
+                                                'forall|k: u64| #[trigger] active_ids@.contains(k) == has_conn_id(connections@, connections@.len() as int, k)',
+                                                'forall|k: u64| readers_keys@.contains(k) == #[trigger] r_mid.contains_key(k)', 'forall|a: int, b: int| 0 <= a < b < readers_keys.len() ==> readers_keys[a] != readers_keys[b]',
+                                                'forall|k: u64| #[trigger] readers@.contains_key(k) ==> r_mid.contains_key(k)',
+                                                C('C19.conns.sync_readers.no_reader_survives_for_a_link_that_is_not_in_the_list',
+                                                  'forall|i: int| 0 <= i < conn_id_nx ==> (readers@.contains_key(#[trigger] readers_keys[i]) == active_ids@.contains(readers_keys[i]))'),
+                                                'forall|i: int| conn_id_nx <= i < readers_keys.len() ==> readers@.contains_key(#[trigger] readers_keys[i])'],
+                                           dec='readers_keys.len() - conn_id_nx',
+                                           before='    let ghost r_mid = readers@;',
+                                           after="""    proof {
+        assert forall|k: u64| old(readers)@.contains_key(k) && has_conn_id(connections@, connections@.len() as int, k) implies #[trigger] readers@.contains_key(k) by {
+            assert(r_mid.contains_key(k));
+            assert(readers_keys@.contains(k));
+            let i = choose|i: int| 0 <= i < readers_keys@.len() && readers_keys@[i] == k;
+            assert(readers@.contains_key(readers_keys[i]) == active_ids@.contains(readers_keys[i]));
+        }
+        assert forall|k: u64| #[trigger] readers@.contains_key(k) implies has_conn_id(connections@, connections@.len() as int, k) by {
+            assert(r_mid.contains_key(k));
+            assert(readers_keys@.contains(k));
+            let i = choose|i: int| 0 <= i < readers_keys@.len() && readers_keys@[i] == k;
+            assert(readers@.contains_key(readers_keys[i]) == active_ids@.contains(readers_keys[i]));
+        }
+    }"""),
+               }))
     def tag_lines(text, needle, tag):
         # the step proofs restate a loop clause for the new iteration: a failure there IS that clause failing
         return '\n'.join(ln + '  // @ob ' + tag if needle in ln and '@ob' not in ln else ln for ln in text.split('\n'))
